@@ -230,7 +230,9 @@ func (g *G) otherType(ty string) string {
 
 var strPool = []string{"", "a", "b", "ab", "hello", "Hello World", " pad ", "x,y,z", "42", "-7", "3.5", "true", "é€", "tab\there", "q\"uote", "back\\slash", "# not a comment", "// neither", "$ > ? @", "line\nbreak", "bell\x07", "nul\x00byte", "esc\x1b[0m", "cr\rlf",
 	// endings and contents a hand-written string scanner gets wrong
-	"trail\\", "\\", "\\\"", "C:\\dir\\", "two\\\\", "q\"", "please return it", "let x = route", "'single'"}
+	"trail\\", "\\", "\\\"", "C:\\dir\\", "two\\\\", "q\"", "please return it", "let x = route", "'single'",
+	// characters a source formatter treats as layout when they stand outside a string
+	"\ufeffbom first", "mid\ufeffdle", "two  spaces", "trailing  ", "\u00a0nbsp", "form\ffeed", "ls\u2028sep", "tab\t\ttab", " lead"}
 
 func (g *G) lit(ty string) *Node {
 	switch ty {
